@@ -117,10 +117,10 @@ class Fraction:
         self.num, self.den = reduce(self.num, self.den)
     
     def value(self, dtype=tuple):
+        self.rebase()   # 2:2 is the whole number 1, not the pair (1,1)
         if self.num==0 or self.den==1:
             return self.num
         elif dtype==tuple:
-            self.rebase()
             return (self.num,self.den)
         elif dtype==float:
             return self.num/self.den
